@@ -222,16 +222,18 @@ def run(ctx):
                necessary="a bind message redirected to itext without a registered id is dangling")
     MSG = {"absent": None, "text": "Plain", "text+ref": "Bad ${q0}", "dict": {"en": "M"}}
     se = repo.cls("pyxform.survey_element:SurveyElement")
-    for (cn, cv), (rn, rv), (nn, nv) in itertools.product(MSG.items(), MSG.items(), MSG.items()):
+    for qtype, (cn, cv), (rn, rv), (nn, nv) in itertools.product(("text", "calculate"), MSG.items(), MSG.items(), MSG.items()):
         bind = {"type": "string"}
+        if qtype == "calculate":
+            bind["calculate"] = "1 + 1"  # a row without a body control still has a bind that carries the messages
         if cv is not None:
             bind["jr:constraintMsg"] = cv
         if rv is not None:
             bind["jr:requiredMsg"] = rv
         if nv is not None:
             bind["jr:noAppErrorString"] = nv
-        desc = f"constraintMsg={cn} requiredMsg={rn} noAppErrorString={nn}"
-        q = _mk(ctx, qcls, "q1", label="L", type="text", bind=bind, control={"tag": "input"})
+        desc = f"{qtype}: constraintMsg={cn} requiredMsg={rn} noAppErrorString={nn}"
+        q = _mk(ctx, qcls, "q1", label="L" if qtype == "text" else None, type=qtype, bind=bind, control={"tag": "input"})
         xp = {"q1": "/data/q1", "data": "/data"}
         s = survey_obj([q])
         it = ctx.interp("C07.R2b", hooks=_hooks(xp))
